@@ -814,15 +814,32 @@ class Gen:
         else:
             sl = mk("LinReg", self.fresh("LR", m), {"vo": vo / 2.0, "vdrop": abs(vo) / 10.0, "iis": R.pick([0.0, 1e-6])}, None)
             heavy = 1e4
+        deep = []
+        below = sl["name"]
+        if kind == "PSwitch" and R.chance(0.2):
+            # the dead part is two levels deep: an always-on regulator and a
+            # second series element between the sleeper and the load
+            sl["p"]["rs"] = 0.01
+            mid = mk("LinReg", self.fresh("LR", m), {"vo": vo / 2.0, "vdrop": abs(vo) / 10.0}, None)
+            ser = mk("PSwitch", self.fresh("SW", m), {"rs": 1.0}, None)
+            deep = [mid, ser]
+            heavy = abs(vo) / 2.0 * R.pick([1.0, 1.5, 10.0])
+            light = abs(vo) / 2.0 * 0.02
+            below = ser["name"]
         load = mk("ILoad", self.fresh("IL", m), {"ii": light}, None)
         conf = {p: light for p in on}
         conf[off] = heavy
         obs = {"op": "observe", "ta": 25.0, "sh": 1, "kw": {}}
-        obs2 = dict(obs, sleeper={"off": off, "sleeper": sl["name"], "load": load["name"], "src": src["name"], "limit": light * 1.0001})
+        obs2 = dict(obs, sleeper={"off": off, "sleeper": sl["name"], "load": load["name"], "src": src["name"], "limit": light * 1.0001, "deep": [d["name"] for d in deep]})
+        chain = []
+        par = sl["name"]
+        for d in deep:
+            chain.append({"op": "add_comp", "parent": par, "comp": d, "group": "", "rail": ""})
+            par = d["name"]
         return [obs,
                 {"op": "add_source", "comp": src, "group": "", "rail": ""},
-                {"op": "add_comp", "parent": src["name"], "comp": sl, "group": "", "rail": ""},
-                {"op": "add_comp", "parent": sl["name"], "comp": load, "group": "", "rail": ""},
+                {"op": "add_comp", "parent": src["name"], "comp": sl, "group": "", "rail": ""}] + chain + [
+                {"op": "add_comp", "parent": below, "comp": load, "group": "", "rail": ""},
                 {"op": "set_comp_phases", "name": sl["name"], "conf": on},
                 {"op": "set_comp_phases", "name": load["name"], "conf": conf},
                 obs2]
